@@ -21,7 +21,7 @@ func init() {
 			"(R4) in the four AES-256 password validators (and a preparation helper they share, if any) the value cut with [:127] derives from the result of processInput (SASLprep), and processInput's argument is not a cut value: Algorithm 2.A normalises first and truncates the UTF-8 result. " +
 			"(R5) the first /ID element, an input of Algorithms 2 and 5, reaches the output as read: no store through an index other than 1 into a value loaded from the ID field, whole-field assignments only behind ID == nil (or in the reader / constructors of new documents). " +
 			"NOT decided: the hash, cipher and big-integer arithmetic (standard library), SASLprep, that the pieces are concatenated in the order the algorithms give, key lengths other than through L/8.",
-		Rules:       []string{"C24.R1 TABLE: constants of ISO 32000 algorithms 2, 3, 4/5, 2.A, 2.B, 8–13 (padding string, round counts, salt offsets, truncations, /Perms markers)", "C24.R2 linear facts: the round loop of Algorithm 2.B is left exactly when n >= 64 and last <= n - 32 (n = completed rounds)", "C24.R3 flow: the first /ID element that enters the key derivation is the string's value (unescaped literal / decoded hex), as written by the file writer", "C24.R4 order: the 127-byte cut of Algorithm 2.A is applied to the SASLprep output, not to its input", "C24.R5 WMC: nothing stores into the first element of an existing /ID array; the field is assigned only where it was nil"},
+		Rules:       []string{"C24.R1 TABLE: constants of ISO 32000 algorithms 2, 3, 4/5, 2.A, 2.B, 8–13 (padding string, round counts, salt offsets, truncations, /Perms markers)", "C24.R2 linear facts: the round loop of Algorithm 2.B is left exactly when n >= 64 and last <= n - 32 (n = completed rounds)", "C24.R3 flow: the first /ID element that enters the key derivation is the string's value (unescaped literal / decoded hex), as written by the file writer", "C24.R4 order: the 127-byte cut of Algorithm 2.A is applied to the SASLprep output, not to its input", "C24.R5 WMC: nothing stores into the first element of an existing /ID array; the field is assigned only where it was nil", "C24.R6 aliasing: in the AES-256 validators no slice is the base of two append calls (password ‖ salt inputs do not share storage)"},
 		Assumptions: []string{"crypto/md5, rc4, aes, sha256, sha512 are correct"},
 		Level:       "other",
 		Technique:   "spec-constant table agreement on SSA: global initialiser bytes, counter-loop ranges, slice bounds, compared constants",
@@ -177,6 +177,8 @@ func runC24(c *Ctx) {
 	checkPasswordCutAfterSASLprep(c)
 	r.MinInst["C24.R5"] = 2
 	checkPermanentIDKept(c)
+	r.MinInst["C24.R6"] = 4
+	checkHashInputsNotAliased(c)
 	ok := func(fid, construct, pos, why string) { r.OK("C24.R1", fid, construct, pos, why, true) }
 	bad := func(fid, construct, pos, why string) { r.Bad("C24.R1", fid, construct, pos, why) }
 	// ---- padding string
